@@ -89,19 +89,31 @@ class _Out(io.StringIO):
         self.buffer = io.BytesIO()
 
 
-def run_cli(argv, stdin_text):
-    """python -m superrec2.cli <argv> in-process; returns (status, stdout, stderr)."""
+_HUNG = [0]
+
+
+def run_cli(argv, stdin_text, limit=120):
+    """python -m superrec2.cli <argv> in-process; returns (status, stdout, stderr).
+    A call takes well under a second; one that has not returned after `limit`
+    seconds is reported as such, and after two of them in one process the
+    remaining calls of that process are not attempted any more."""
     from superrec2.cli import __main__ as cli
+    if _HUNG[0] >= 2:
+        return mc.Raised(TimeoutError("not attempted: two earlier command-line calls did not return")), "", ""
     old = (sys.argv, sys.stdin, sys.stdout, sys.stderr)
     out, err = _Out(), io.StringIO()
     sys.argv, sys.stdin, sys.stdout, sys.stderr = ["superrec2"] + list(argv), io.StringIO(stdin_text), out, err
-    try:
+
+    def call():
         try:
-            status = cli.run()
+            return cli.run()
         except SystemExit as exc:
-            status = exc.code
-        except Exception as exc:  # pylint: disable=broad-except
-            status = mc.Raised(exc)
+            return exc.code
+
+    try:
+        status = mc.safe(call, _limit=limit)
+        if isinstance(status, mc.Raised) and "no result after" in status.text:
+            _HUNG[0] += 1
     finally:
         sys.argv, sys.stdin, sys.stdout, sys.stderr = old
     text = out.getvalue() + out.buffer.getvalue().decode("utf8", "replace")
